@@ -3,6 +3,7 @@ package mesh
 import (
 	"fmt"
 	"net"
+	"sync/atomic"
 	"time"
 
 	v2 "mosn.io/mosn/pkg/config/v2"
@@ -105,4 +106,16 @@ func NewCaseBound(o Opts) (*Case, error) {
 		time.Sleep(2 * time.Millisecond)
 	}
 	return nil, fmt.Errorf("listener %s does not accept: %v", c.Addr, lastErr)
+}
+
+// Abandon releases a case without removing its listener: DeleteListener waits up to 15 s for the
+// listener's stream gauge to reach zero (which it does not always do after garbage input), and
+// concurrent DeleteListener calls race on connHandler.listeners (RemoveListeners mutates the slice
+// without a lock: "slice bounds out of range" panic). The listener socket stays bound until the
+// process exits; the cluster is removed.
+func (c *Case) Abandon() {
+	if !atomic.CompareAndSwapInt32(&c.closed, 0, 1) {
+		return
+	}
+	_ = cluster.GetClusterMngAdapterInstance().TriggerClusterDel(c.ClusterName)
 }
